@@ -1,6 +1,6 @@
 (* ExecMerge.v — model of the execute plugin's observation validation and merges:
    execute/plugin.go:ValidateObservation, execute/plugin_functions.go:validateObserverReadingEligibility,
-   validateObservedSequenceNumbers, validateMessageKeys (repair of F13a), mergeCommitObservations,
+   validateObserverDataEligibility, validateObservedSequenceNumbers, validateMessageKeys (repair of F13a), mergeCommitObservations,
    mergeMessageObservations, mergeTokenObservations, mergeNonceObservations, mergeCostlyMessages (with the
    repair of F13c), getConsensusObservation.
 
@@ -76,11 +76,20 @@ Definition validate_seqnums (commits : list (N * list commit)) : bool :=
 Definition validate_msg_keys (msgs : list (N * list (N * msg))) : bool :=
   forallb (fun kv => forallb (fun sm => N.eqb (m_seq (snd sm)) (fst sm)) (snd kv)) msgs.
 
-Definition validate (sup : list N) (o : obs) : bool :=
-  validate_eligibility sup (o_msgs o) && validate_seqnums (o_commits o) && validate_msg_keys (o_msgs o).
-(* ValidateObservation as it was before the repair *)
-Definition validate_unfixed (sup : list N) (o : obs) : bool :=
-  validate_eligibility sup (o_msgs o) && validate_seqnums (o_commits o).
+(* validateObserverDataEligibility (repair of F07): token data only for chains the observer reads; nonces and costly
+   flags only from observers that read the destination chain *)
+Definition validate_data (sup : list N) (dest : N) (o : obs) : bool :=
+  forallb (fun kv => match snd kv with [] => true | _ => memN (fst kv) sup end) (o_tokens o) &&
+  (if memN dest sup then true
+   else forallb (fun kv => match snd kv with [] => true | _ => false end) (o_nonces o) &&
+        match o_costly o with [] => true | _ => false end).
+
+Definition validate (sup : list N) (dest : N) (o : obs) : bool :=
+  validate_eligibility sup (o_msgs o) && validate_data sup dest o && validate_seqnums (o_commits o) &&
+  validate_msg_keys (o_msgs o).
+(* ValidateObservation without the repair of F13a *)
+Definition validate_unfixed (sup : list N) (dest : N) (o : obs) : bool :=
+  validate_eligibility sup (o_msgs o) && validate_data sup dest o && validate_seqnums (o_commits o).
 
 (* ---------- merges ---------- *)
 (* "no validator for chain": some observation has a key that fChain lacks *)
